@@ -89,7 +89,7 @@ NewHandle(m, root) ==
 LogOne(m, e, C) ==
   IF e.t = "F" THEN m      \* the finalizer callback ran (its place in the step is judged by FinOrder)
   ELSE IF e.t = "I"      \* C16: the counting iterator source was pulled: never after the (first) subscriber has seen its terminal
-  THEN Flag(m, GetB(m.term, 1), "C16", C.checks)
+  THEN Flag(Flag(m, GetB(m.term, 1), "C16", C.checks), GetB(m.term, 1), "C05", IF "C05i" \in C.checks THEN C.checks \cup {"C05"} ELSE C.checks)   \* (flattening cases carry C05 too: an unbounded source would block)
   ELSE IF e.t = "R" \/ e.t = "U"   \* C19: the body of harness task (e.p - 100) ran with sequence number e.v / its subscription was unsubscribed
   THEN LET k == e.p - 100
            td == m.tdelay[k]
@@ -490,9 +490,10 @@ MonStep(m0, step, C) ==
       z9 == IF ~is9 THEN m.t9
             ELSE LET zz == IF m.t9.init THEN m.t9 ELSE T9Init(r10.hroot[1], r10.ht[1]) IN
                  IF GetI(r10.hend, 1) > 0 THEN [zz EXCEPT !.out = <<>>] ELSE T9Step(zz, s, r10.now)
-      got9 == [i \in 1..Len(o.log) |-> <<o.log[i].t, o.log[i].v>>]
+      log9 == SelectSeq(o.log, LAMBDA e : e.p = 1)         \* (what the first subscription received; others may exist beside it)
+      got9 == [i \in 1..Len(log9) |-> <<log9[i].t, log9[i].v>>]
       r10b == [Flag(r10, is9 /\ o.fault = "" /\ GetI(m.hend, 1) = 0 /\ s.k # "unsub"
-                         /\ (got9 # z9.out \/ \E i \in 1..Len(o.log) : o.log[i].at # r10.now), "C09", checks) EXCEPT !.t9 = z9]
+                         /\ (got9 # z9.out \/ \E i \in 1..Len(log9) : log9[i].at # r10.now), "C09", checks) EXCEPT !.t9 = z9]
       (* C16: once the subscriber has seen its terminal, every producer feeding it retires: after one more      *)
       (* period (all periods are 1 in the suite) has elapsed and the executor has run to idle no task is left  *)
       (* (iterator sources: see LogOne, no pull after the terminal)                                            *)
